@@ -1,7 +1,9 @@
 (* Property C20: caches and event dispatch obey their sequential spec under any schedule.
-   Only statements; every proof is `exact <lemma from Proofs/EventsP.v, CacheP.v, CacheThreadP.v>`. *)
+   Only statements; every proof is `exact <lemma from Proofs/EventsP.v, CacheP.v, CacheThreadP.v, CacheCloseP.v,
+   CacheCloseCheckP.v, CacheFileP.v>`. *)
 From TenpyV Require Import Base.Prelude Model.Events Proofs.EventsP Model.Cache Proofs.CacheP.
 From TenpyV Require Import Model.CacheThread Proofs.CacheThreadP Model.CacheClose Proofs.CacheCloseP.
+From TenpyV Require Import Model.CacheCloseCheck Proofs.CacheCloseCheckP Model.CacheFile Proofs.CacheFileP.
 Open Scope Z_scope.
 
 (* ---------------------------------------------------------------- event dispatch *)
@@ -156,7 +158,14 @@ Proof. vm_compute. reflexivity. Qed.
    Model/CacheClose.v: the LTS of Model/CacheThread.v (used unchanged) extended by close() calls in the caller's
    program: _common_close (ValueError when already closed), Worker.__exit__ (exit.set(); worker_thread.join()), the
    worker testing `exit` whenever it is idle and draining the queue in its `finally`, then disk_storage.close(),
-   _loaded.clear(), _waiting_for_load.clear().  Not modelled: sub-containers, CacheFile / DictCache layer, files. *)
+   _loaded.clear(), _waiting_for_load.clear().  Not modelled: sub-containers of the ThreadedStorage, CacheFile /
+   DictCache layer.
+   Tie to the code: stream "sched-close" of harness/c20_sched.py runs programs with close() / __exit__ calls (operations
+   after close, second close, close while the worker holds a task and more are queued, injected failures) on the real
+   ThreadedStorage + Worker under schedules enforced by gates and compares with `cl_run` through
+   Model/CacheCloseCheck.v `check_cl_run`: every event (what each call returned / where it blocks, which tasks the worker
+   ran, hence which were dropped) and the final _loaded, _waiting_for_load, liveness, Worker.exit, _opened flags and
+   files on disk. *)
 
 (* no deadlock on close: close() started between two operations from ANY state of the LTS (in particular from every
    reachable one: any queue content, worker idle / running a task / dying after a failure / dead), any queue size, any
@@ -206,6 +215,82 @@ Example T20_example_close :
   t_disk (c_base st) = [] /\ c_prog st = [].
 Proof. cbn zeta. unfold closed_st, pc_quiet. vm_compute. repeat split; auto. Qed.
 
+(* the replay used by the correspondence stream "sched-close" takes steps of the transition system only: the state it
+   reaches (and compares event by event with the implementation) is cl_run of the fine-grained schedule it reports *)
+Theorem T20_close_replay_is_run : forall qmax fail_at toks st st' fine es,
+  cl_replay qmax fail_at st toks = (st', fine, es) -> st' = cl_run qmax fail_at fine st.
+Proof. exact cl_replay_is_run. Qed.
+
+Example T20_example_close_replay :
+  let prog := [COp (SSave 1 10); COp (SSave 2 20); CClose; COp (SLoad 1); CClose] in
+  cl_replay 2 None (cl_init prog) [true; true; true; false; true; true]
+  = (cl_run 2 None [true; false; true; true; false; false; false; false; true; true; true] (cl_init prog),
+     [true; false; true; true; false; false; false; false; true; true; true],
+     [[10; 0]; [10; 0]; [16]; [21; 1; 1; 35; 0]; [10; 2]; [15; 1]]).
+Proof. vm_compute. reflexivity. Qed.
+
+(* ---------------------------------------------------------------- file-backed storages with sub-containers
+   Model/CacheFile.v: PickleStorage (one file per key, sub-containers = sub-directories) / Hdf5Storage as documented (one
+   dataset per key, sub-containers = sub-groups) as a list of containers, each a finite map key -> value with its path
+   and Storage._opened.  Tie to the code: stream "file-storage" of harness/c20_sched.py (PickleStorage trees) through
+   Model/CacheFileCheck.v `check_fs`.  Not modelled: close() of a container with a separately closed descendant. *)
+
+(* every container p of every file system state meets the storage contract of T20_dictcache_refines_dict
+   (abstraction: the files of p while p is open, nothing once it is closed; invariant: p is open) *)
+Theorem T20_file_storage_ok : forall p, storage_ok (fs_ops p) (fs_abs p) (fs_inv p).
+Proof. exact file_storage_ok. Qed.
+
+(* hence a DictCache over any open container of a file-backed storage returns what a plain dictionary returns *)
+Theorem T20_dictcache_over_file_storage : forall p fs, fs_is_open p fs = true ->
+  forall ops, snd (c_run (fs_ops p) (c_empty fs) ops) = snd (d_run [] ops).
+Proof. exact dictcache_over_file_storage. Qed.
+
+(* containers are isolated: load / save / delete / preload on container p change neither the content nor the open flag
+   of any other container q (parent, child or unrelated), whatever the state *)
+Theorem T20_file_subcontainers_isolated : forall p q fs k v k', q <> p ->
+  fs_abs q (s_save (fs_ops p) fs k v) k' = fs_abs q fs k' /\
+  fs_abs q (s_delete (fs_ops p) fs k) k' = fs_abs q fs k' /\
+  fs_abs q (fst (s_load (fs_ops p) fs k)) k' = fs_abs q fs k' /\
+  fs_abs q (s_preload (fs_ops p) fs k) k' = fs_abs q fs k' /\
+  fs_is_open q (s_save (fs_ops p) fs k v) = fs_is_open q fs /\
+  fs_is_open q (s_delete (fs_ops p) fs k) = fs_is_open q fs /\
+  fs_is_open q (fst (s_load (fs_ops p) fs k)) = fs_is_open q fs /\
+  fs_is_open q (s_preload (fs_ops p) fs k) = fs_is_open q fs.
+Proof. exact file_subcontainers_isolated. Qed.
+
+(* close() of an open container p succeeds and closes p and EVERY container below it (any depth: every path p ++ r),
+   which from then on denote the empty map and refuse to load; every container not below p keeps its flag and content;
+   the top container (p = []) removes all files *)
+Theorem T20_file_close_closes_subcontainers : forall p fs, fs_is_open p fs = true ->
+  fs_step fs (FClose p) = (fs_close p fs, FNone) /\
+  (forall r, fs_is_open (p ++ r) (fs_close p fs) = false /\
+             forall k, fs_abs (p ++ r) (fs_close p fs) k = None /\
+                       snd (s_load (fs_ops (p ++ r)) (fs_close p fs) k) = None) /\
+  (forall q, prefix_b p q = false ->
+             fs_is_open q (fs_close p fs) = fs_is_open q fs /\
+             forall k, fs_abs q (fs_close p fs) k = fs_abs q fs k) /\
+  (p = [] -> forall q, fs_files q (fs_close p fs) = []).
+Proof. exact file_close_closes_subcontainers. Qed.
+
+(* closed is absorbing: a closed container stays closed under every further operation sequence on the whole tree
+   (including subcontainer() and close() anywhere), and every operation addressed to it - load, save, delete, preload,
+   subcontainer, a second close - raises ValueError *)
+Theorem T20_file_closed_forever : forall q ops fs, fs_closed q fs = true ->
+  fs_closed q (fst (fs_run fs ops)) = true /\
+  Forall2 (fun op o => f_target op = q -> o = FValueError) ops (snd (fs_run fs ops)).
+Proof. exact file_closed_forever. Qed.
+
+(* non-vacuity: a tree top / 0 / 0.1; closing 0 closes 0.1 and leaves the top container alone; closing the top removes
+   the files *)
+Example T20_file_example :
+  let ops := [FSave [] 1 10; FSub [] 0; FSub [0] 1; FSave [0; 1] 2 20; FLoad [0; 1] 2; FSub [] 0; FClose [0];
+              FLoad [0; 1] 2; FLoad [] 1; FClose [0]; FLoad [0] 5; FClose []; FLoad [] 1] in
+  snd (fs_run fs_init ops) = [FNone; FNone; FNone; FNone; FVal 20; FValueError; FNone;
+                              FValueError; FVal 10; FValueError; FValueError; FNone; FValueError] /\
+  fst (fs_run fs_init ops) = [mkFC [] [] false; mkFC [0] [] false; mkFC [0; 1] [] false] /\
+  fs_inv [0; 1] (fst (fs_run fs_init (firstn 6 ops))) /\ fs_closed [0; 1] (fst (fs_run fs_init (firstn 7 ops))) = true.
+Proof. vm_compute. repeat split. Qed.
+
 Print Assumptions T20_events.
 Print Assumptions T20_events_emit_until.
 Print Assumptions T20_events_disconnect.
@@ -225,3 +310,9 @@ Print Assumptions T20_close_no_deadlock.
 Print Assumptions T20_closed_forever.
 Print Assumptions T20_after_close_op.
 Print Assumptions T20_second_close_raises.
+Print Assumptions T20_close_replay_is_run.
+Print Assumptions T20_file_storage_ok.
+Print Assumptions T20_dictcache_over_file_storage.
+Print Assumptions T20_file_subcontainers_isolated.
+Print Assumptions T20_file_close_closes_subcontainers.
+Print Assumptions T20_file_closed_forever.
